@@ -192,6 +192,8 @@ def guards(path, node=None):
                     out += atoms(s["cond"], False)
                 if s is not None and s.get("k") == "If" and s.get("else") is not None and is_exit(s.get("else")) and not is_exit(s.get("then")):
                     out += atoms(s["cond"], True)
+                if s is not None and s.get("k") == "Call" and s["callee"]["name"].endswith("io_error_if") and s.get("args"):
+                    out += atoms(s["args"][0], False)
     return out
 
 
